@@ -62,11 +62,15 @@ func (s *ContextScope) Stop() {
 
 // Err return cumulative error if the scope context contains any error
 func (s *ContextScope) Err() error {
+	s.errorsMU.Lock()
+	defer s.errorsMU.Unlock()
 	return goaterr.ToError(s.errors)
 }
 
 // Errors return scope errors
 func (s *ContextScope) Errors() []error {
+	s.errorsMU.Lock()
+	defer s.errorsMU.Unlock()
 	return s.errors
 }
 
